@@ -154,7 +154,7 @@ Theorem result_posted_only_if_pending_and_unaltered st x h :
   execute_operation {| h_st := st; h_tr := [] |} x = ROk h tt ->
   ox_event x <> "" /\
   exists stored, In stored (ops_visible st) /\ op_same_id (ox_ident x) stored = true /\
-                 op_type stored = op_type (ox_op x) /\ ox_stored_bytes x = ox_bytes x /\
+                 op_type stored = op_type (ox_op x) /\ ox_stored_bytes x = ox_bytes x /\ op_round stored = op_round (ox_op x) /\
                  (ox_event x <> ev_processed ->
                     exists tail, h_tr h = sends_of (ns_user st) (ox_msgs x) ++ tail /\
                                  forall w, In w tail -> match w with WSend _ => False | _ => True end).
@@ -163,8 +163,8 @@ Proof.
   destruct (String.eqb (ox_event x) "") eqn:Ee; [discriminate|]. apply String.eqb_neq in Ee.
   destruct (find (op_same_id (ox_ident x)) (ops_visible st)) as [stored|] eqn:Ef; [|discriminate].
   apply find_some in Ef as [Hin Hid].
-  destruct (negb (op_same_type stored (ox_op x) && N.eqb (ox_stored_bytes x) (ox_bytes x))) eqn:Eq; [discriminate|].
-  apply negb_false_iff in Eq. apply andb_prop in Eq as [Et Eb].
+  destruct (negb (op_same_type stored (ox_op x) && N.eqb (ox_stored_bytes x) (ox_bytes x) && N.eqb (op_round stored) (op_round (ox_op x)))) eqn:Eq; [discriminate|].
+  apply negb_false_iff in Eq. apply andb_prop in Eq as [Eq Er]. apply andb_prop in Eq as [Et Eb]. apply N.eqb_eq in Er.
   apply String.eqb_eq in Et. apply N.eqb_eq in Eb.
   intros H. split; [exact Ee|]. exists stored. repeat split; auto.
   intros Hnp. apply String.eqb_neq in Hnp. rewrite Hnp in H. cbn [negb] in H.
